@@ -174,3 +174,45 @@ Definition after_protocol_fix (k : cache_key) : cache_key :=
   then CacheKey (ck_file k) (ck_func k) (ck_cache k) (ck_op k) "cache_key := (self_val, other_val)"
   else k.
 Definition pinned_cache_keys_after_protocol_fix : list cache_key := map after_protocol_fix pinned_cache_keys.
+
+(* Round 4: what a cache hands out must be immutable or copied on the way out.  The caches above store
+   Values / Signatures / TypeObjects (frozen dataclasses) and BoundsMaps -- dicts of lists, returned BY
+   REFERENCE (TypeObject.can_assign returns the very dict it keeps in _protocol_positive_cache).  So
+   nobody may mutate a BoundsMap or a bounds list he did not create.  The inventory lists, for value.py,
+   type_object.py, signature.py, typevar.py, arg_spec.py, checker.py:
+     mutate       every in-place mutation (append/extend/update/setdefault/pop/..., x[k] = v, del x[k], x.a += v)
+                  whose receiver is not a local that is only ever bound to freshly built objects (and not
+                  `self` itself);
+     alias-store  every store of a not-obviously-fresh object into a fresh local container (the container then
+                  aliases it).
+   Audit of the rows below: the `mutate` rows act on the owner's own fields (caches, registries, per-instance
+   state) or on objects created in the same expression (`result.setdefault(tv, [])`, `intermediate.setdefault(tv, {})`:
+   the default is a new list/dict, bounds are copied INTO it by extend / keyed by tuple(bounds)); the
+   `alias-store` rows store immutable objects (Values, SigParameters, names).  In particular no row mutates or
+   aliases a list taken from a BoundsMap.  A new row -- e.g. `result[tv] = bounds` followed by
+   `result[tv].extend(...)` in unify_bounds_maps -- fires the obligation. *)
+Definition pinned_mutation_sites : list cache_key := [
+  CacheKey "arg_spec.py" "ArgSpecCache.__init__" "mutate" "self.known_argspecs" "[]=";
+  CacheKey "arg_spec.py" "ArgSpecCache._cached_get_argspec" "mutate" "self.known_argspecs" "[]=";
+  CacheKey "arg_spec.py" "ArgSpecCache._get_generic_bases_cached" "mutate" "self.generic_bases_cache" "[]=";
+  CacheKey "arg_spec.py" "ArgSpecCache.get_generic_bases" "alias-store" "tv_map[tv_value.typevar]" "value";
+  CacheKey "arg_spec.py" "with_implementation" "alias-store" "known_argspecs[fn]" "argspec";
+  CacheKey "checker.py" "Checker.__post_init__" "mutate" "self.vnv_map" "[]=";
+  CacheKey "checker.py" "Checker.assume_compatibility" "mutate" "self.assumed_compatibilities" "append";
+  CacheKey "checker.py" "Checker.assume_compatibility" "mutate" "self.assumed_compatibilities" "pop";
+  CacheKey "checker.py" "Checker.make_type_object" "mutate" "self.type_object_cache" "[]=";
+  CacheKey "signature.py" "Signature.__post_init__" "mutate" "self.all_typevars" "update";
+  CacheKey "signature.py" "Signature.__post_init__" "mutate" "self.typevars_of_params" "[]=";
+  CacheKey "signature.py" "Signature.check_call_with_bound_args" "alias-store" "varmap[param_name]" "value";
+  CacheKey "signature.py" "Signature.make" "alias-store" "param_dict[param.name]" "param";
+  CacheKey "signature.py" "Signature.maybe_show_too_many_pos_args_error" "alias-store" "composite_to_name[composite]" "name";
+  CacheKey "signature.py" "Signature.maybe_show_too_many_pos_args_error" "alias-store" "node_to_composite[unbound_arg.node]" "unbound_arg";
+  CacheKey "signature.py" "_CanAssignBasedContext.on_error" "mutate" "self.errors" "append";
+  CacheKey "type_object.py" "TypeObject.__post_init__" "mutate" "self.artificial_bases" "add";
+  CacheKey "type_object.py" "TypeObject.__post_init__" "mutate" "self.base_classes" "augassign";
+  CacheKey "type_object.py" "TypeObject.can_assign" "mutate" "self._protocol_positive_cache" "[]=";
+  CacheKey "typevar.py" "resolve_bounds_map" "alias-store" "tv_map[tv]" "solution";
+  CacheKey "value.py" "intersect_bounds_maps" "mutate" "intermediate.setdefault(tv, {})" "[]=";
+  CacheKey "value.py" "kv_pairs_from_mapping" "mutate" "pairs" "append";
+  CacheKey "value.py" "unify_bounds_maps" "mutate" "result.setdefault(tv, [])" "extend"
+]%list.
